@@ -25,7 +25,7 @@
 //   db <wseed> events=<…> base=<s:t:v,…> full=<s:t:v,…>                      -> -
 //   logs <wseed> wal=<idx:hex;…> wbl=<idx:hex;…> ckpt=<idx:hex;…>            -> -
 //   site <wseed> <class> <seg> <off> <mut> j=… open1=… tree1=… present1=… new=… app=… open2=… present2=…
-//                                                                           -> repair=<none|wal:seg:off|wbl:seg:off>
+//                          -> repair=<none|wal:seg:off|wbl:seg:off> wal=<idx:len:fnv,…> wbl=<…>   (the log dirs after the open)
 //   wopen <pages per segment>            -> ok
 //   wlog <len:seed,…>                    -> ok segs=<n>
 //   wclose                               -> ok <len:fnv per segment>
@@ -590,6 +590,8 @@ func runSite(master string, files []fileInfo, wseed uint64, st site, nEvents int
 		}
 		repair = which + ":" + strings.Join(capH.repair, "+")
 	}
+	// the log directories right after the open (before any further write): predicted by the model
+	repair += " wal=" + dirSummary(filepath.Join(dir, "wal")) + " wbl=" + dirSummary(filepath.Join(dir, "wbl"))
 	add("open1", errClass(oerr))
 	if oerr != nil {
 		add("tree1", treeDiff(before, tree(dir)))
@@ -876,10 +878,10 @@ func (dc *dbCase) genSites(r *h.Rng, stride int) []site {
 	}
 	stride0 := stride
 	for _, f := range targets {
-		// thorough (stride 1): every offset of the newest file of each class, every 3rd of the older ones
+		// thorough (stride 1): every offset of the newest file of each class, every 5th of the older ones
 		stride := stride0
 		if stride0 == 1 && f.seg != newest[f.class] {
-			stride = 3
+			stride = 5
 		}
 		phase := 0
 		if stride > 1 {
@@ -943,6 +945,26 @@ func segFiles(dir string) []string {
 		out = append(out, wlog.SegmentName(dir, k))
 	}
 	return out
+}
+
+// dirSummary lists the segment files of a log directory as idx:len:fnv.
+func dirSummary(dir string) string {
+	ents, _ := os.ReadDir(dir)
+	var ks []int
+	for _, e := range ents {
+		if k, err := strconv.Atoi(e.Name()); err == nil && !e.IsDir() {
+			ks = append(ks, k)
+		}
+	}
+	sort.Ints(ks)
+	var xs []string
+	for _, k := range ks {
+		xs = append(xs, fmt.Sprintf("%d:%s", k, fnvFile(wlog.SegmentName(dir, k))))
+	}
+	if len(xs) == 0 {
+		return "-"
+	}
+	return strings.Join(xs, ",")
 }
 
 func segSummary(dir string) string {
@@ -1345,7 +1367,7 @@ func main() {
 		return
 	}
 	// n = number of wlog-level cases; DB cases: quick 1 (sampled offsets), thorough 2 (every offset of the
-	// newest file of each class, every 3rd offset of the older ones).
+	// newest file of each class, every 5th offset of the older ones).
 	ndb, stride := 1, 12
 	if c.Tier == "thorough" {
 		ndb, stride = 2, 1
